@@ -175,7 +175,21 @@ def run(ctx, case):
     tol = M.Tol(vtol, itol)
     ns = loader.load()
     gaps = case.get("gaps", 0)
-    if gaps:
+    if gaps == 3 and case.get("zero_slot", True):
+        # created with a scratch source that is deleted before the first non-source component joins: that component
+        # takes the recycled node index 0 (see the row driver's scratch_first_source history)
+        from . import _rows as _rw
+
+        class _Ctx:
+            count = staticmethod(lambda *a, **k: None)
+
+        try:
+            _, sysobj = _rw.build_with_history(_Ctx, spec, "scratch_first_source", case.get("qseed", 0) if isinstance(case.get("qseed"), int) else 0)
+            st = "ok"
+        except Exception as e:  # noqa: BLE001
+            st, sysobj = "raise", e
+        ctx.count("built", "with a non-source component at the recycled node index 0")
+    elif gaps:
         # the same structure reached through an edit history that leaves `gaps` unfilled node indices
         # (scratch components added early and deleted at the end): the solver's vectors are indexed by node index
         first = spec["comps"][0]
